@@ -747,7 +747,7 @@ def valid_program(draw, max_sections: int = 3, max_statements: int = 5, rich: bo
     for _ in range(d(st.integers(1, max_sections))):
         sid = d(st.one_of(st.integers(0, 8), VAL))
         while sid in used_ids:
-            sid += 1
+            sid = (sid + 1) & M32
         used_ids.add(sid)
         tokens += ["section", "("] + operand(env, sid).toks + [")", "{"]
         cmds = []
